@@ -21,6 +21,7 @@ type legacyArg struct {
 	NumVb int
 	Ver   []int // server version (major, minor, patch, build); empty = 5.4.9-9
 	NoEnd bool  // the fake client sends no end notification for a closed stream: a serial close then waits forever at the second stream
+	Cycles int  // kind rebalance: this many close / reopen cycles (default 1)
 }
 
 type legacyRes struct {
@@ -31,6 +32,8 @@ type legacyRes struct {
 	StillOpen   bool     // the stream reports open after the cycle
 	StartResult string   // "returned" | "hung" | "died: ..." (kind close, and at the end of kind rebalance)
 	Serial      bool     // the closes of the close half were issued one at a time, each after the end of the previous one
+	Cycles      int      // rebalance cycles completed
+	StoppedAt   int      // the client stopped by itself (Start() returned, nobody called Close()) after this cycle; 0 = never
 }
 
 func init() {
@@ -52,28 +55,52 @@ func init() {
 		d.Client.TakeCloses()
 		res := legacyRes{}
 		if a.Kind == "rebalance" {
-			done := make(chan struct{})
-			t0 := time.Now()
-			go func() { d.Stream.Rebalance(); close(done) }()
-			select {
-			case <-done:
-			case <-time.After(4 * time.Second):
-				res.CloseHung = true
+			if a.Cycles == 0 {
+				a.Cycles = 1
 			}
-			res.CloseMs = time.Since(t0).Milliseconds()
-			res.CloseReqs = d.Client.TakeCloses()
-			if !res.CloseHung {
+			for cyc := 1; cyc <= a.Cycles && !res.CloseHung && res.StoppedAt == 0; cyc++ {
+				d.Client.TakeOpens()
+				d.Client.TakeCloses()
+				done := make(chan struct{})
+				t0 := time.Now()
+				go func() { d.Stream.Rebalance(); close(done) }()
+				select {
+				case <-done:
+				case <-time.After(4 * time.Second):
+					res.CloseHung = true
+				}
+				res.CloseMs = time.Since(t0).Milliseconds()
+				res.CloseReqs = d.Client.TakeCloses()
+				if res.CloseHung {
+					break
+				}
 				deadline := time.Now().Add(4 * time.Second)
 				for time.Now().Before(deadline) && !d.Stream.IsOpen() {
-					time.Sleep(10 * time.Millisecond)
+					time.Sleep(5 * time.Millisecond)
 				}
-				time.Sleep(100 * time.Millisecond)
+				time.Sleep(60 * time.Millisecond)
 				res.StillOpen = d.Stream.IsOpen()
+				res.Reopened = nil
 				for _, oc := range d.Client.TakeOpens() {
 					res.Reopened = append(res.Reopened, oc.VbID)
 				}
 				sort.Slice(res.Reopened, func(i, j int) bool { return res.Reopened[i] < res.Reopened[j] })
+				res.Cycles = cyc
+				select {
+				case r := <-d.startDone:
+					res.StoppedAt = cyc
+					res.StartResult = r
+				default:
+				}
+				if !res.StillOpen {
+					break
+				}
 			}
+		}
+		if res.StoppedAt > 0 {
+			b, _ := json.Marshal(res)
+			fmt.Println("RESULT " + string(b))
+			return
 		}
 		if !res.CloseHung {
 			t0 := time.Now()
@@ -95,7 +122,9 @@ func init() {
 }
 
 // runLegacy reports under the classes of the calling property.
-func runLegacy(c *Ctx, kinds []string) {
+// copies x cycles: how often the rebalance cycle is repeated (the stop after a rebalance, K15, is a race that a single cycle
+// shows once in about seventy times on an idle machine)
+func runLegacy(c *Ctx, kinds []string, copies, cycles int) {
 	type job struct {
 		kind string
 		n    int
@@ -104,17 +133,20 @@ func runLegacy(c *Ctx, kinds []string) {
 	for _, k := range kinds {
 		for _, n := range []int{1, 2, 4} {
 			jobs = append(jobs, job{k, n})
+			for x := 1; x < copies && k == "rebalance"; x++ {
+				jobs = append(jobs, job{k, n})
+			}
 		}
 	}
 	out := make([]ChildResult, len(jobs))
 	Parallel(len(jobs), 8, func(i int) {
-		out[i] = RunChild("legacy", legacyArg{Kind: jobs[i].kind, NumVb: jobs[i].n}, 40*time.Second)
+		out[i] = RunChild("legacy", legacyArg{Kind: jobs[i].kind, NumVb: jobs[i].n, Cycles: cycles}, 120*time.Second)
 	})
 	for i, j := range jobs {
 		cr := out[i]
 		rep := map[string]interface{}{"how": "vh child legacy", "kind": j.kind, "vbuckets": j.n, "server": "5.4.9-9"}
 		c.Count("legacy-server:" + j.kind)
-		c.Eval(fmt.Sprint("legacy ", j.kind, j.n), true)
+		c.Eval(fmt.Sprint("legacy ", j.kind, j.n, " #", i), true)
 		var res *legacyRes
 		for _, l := range cr.Lines {
 			if strings.HasPrefix(l, "RESULT ") {
@@ -122,7 +154,7 @@ func runLegacy(c *Ctx, kinds []string) {
 				_ = json.Unmarshal([]byte(l[7:]), res)
 			}
 		}
-		what := fmt.Sprintf("server 5.4.9 (serial stream closing), %d vBuckets, %s", j.n, map[string]string{"rebalance": "a rebalance cycle", "close": "Close()"}[j.kind])
+		what := fmt.Sprintf("server 5.4.9 (serial stream closing), %d vBuckets, %s", j.n, map[string]string{"rebalance": fmt.Sprintf("%d rebalance cycles", cycles), "close": "Close()"}[j.kind])
 		if res == nil {
 			c.Violate("legacy-server-"+j.kind, fmt.Sprintf("%s: the process died (exit %d) %s", what, cr.ExitCode, cr.Fatal), rep)
 			continue
@@ -133,6 +165,12 @@ func runLegacy(c *Ctx, kinds []string) {
 			want[v] = uint16(v)
 		}
 		switch {
+		case res.StoppedAt > 0:
+			// K15: the ends answering the serial close posted "finished by end events", close() posted "finished by close" as
+			// well when it read the flag before wait() had set it, and the wait() of the reopened stream stopped the client
+			c.Violate("legacy-server-rebalance-stops-client", fmt.Sprintf("%s: the client stopped by itself after cycle %d (Start() %s, nobody called Close())", what, res.StoppedAt, res.StartResult), rep)
+		case j.kind == "rebalance" && !res.CloseHung && !res.StillOpen:
+			c.Violate("legacy-server-rebalance-stops-client", fmt.Sprintf("%s: the stream is closed again after cycle %d although nobody closed it", what, res.Cycles), rep)
 		case res.CloseHung:
 			c.Violate("legacy-server-"+j.kind, fmt.Sprintf("%s: the close half had not returned after 4 s (stream closes requested: %v)", what, res.CloseReqs), rep)
 		case fmt.Sprint(res.CloseReqs) != fmt.Sprint(want):
